@@ -59,6 +59,8 @@ ALPHA = [
     ("declare_var", "x"),
     ("delay_v", "x", "g"),
     ("add_v", "x", 52, "l"),
+    ("add_v", "x", 52, "g"),
+    ("eom_pulse_v", "x", "g"),
     ("ro", "duration"),
     ("ro", "str"),
     ("magfield", 0.0, 0.0, 30.0),
@@ -138,6 +140,13 @@ def typestate(ctx):
             for what, d in observers(ctx.seq, n, dev):
                 out.append((f"C13:observer:{what}:{ctx.op[0]}", d))
         ctx.act["observers_checked"] += 1
+    if not accepted and v is False:
+        # a refused call leaves the mode as it was
+        with warnings.catch_warnings():
+            warnings.simplefilter("ignore")
+            for what, d in observers(ctx.seq, st, dev):
+                out.append((f"C13:refused-call-changed-the-mode:{what}:{s}", d))
+        ctx.act["observers_checked_after_refusal"] += 1
     return out
 
 
@@ -172,6 +181,8 @@ def _replay_task(task):
         obs = []
         if accepted and n is not None and v is not False:
             obs = observers(seq, n, dev)
+        elif not accepted and v is False:
+            obs = [("refused-call-changed-the-mode:" + w_, d) for w_, d in observers(seq, st, dev)]
     return ("ok", accepted, err, obs)
 
 
